@@ -12,6 +12,8 @@
 //!   `c09.types <rules> <event>`         → `ok <n> (<type> <key>)*` sorted, or `err`
 //!   `c09.reads <rules> <event> <state>` → `allow|reject <n> (<type> <key>)*` the state reads, sorted
 //!   `c09.typespec <ver> <event>`        → like `c09.types`, answered by the SPEC side
+#[path = "../../h-c07/src/sr.rs"]
+mod sr;
 mod gen;
 mod pdu;
 mod scn;
@@ -104,6 +106,15 @@ pub fn run(req: &str) -> Outcome {
     let toks: Vec<&str> = req.split(' ').collect();
     if toks.len() < 3 {
         return Outcome::bad();
+    }
+    // C09 at the level of `resolve` (anchor: "iterative_auth_check builds the auth state from exactly
+    // these keys"): rooms in which an event's own auth_events omit / replace selected entries, so
+    // that what `iterative_auth_check` hands to `auth_check` matters. Answer = the resolved state.
+    if toks[0] == "c09.iter" || toks[0] == "c09.iterspec" {
+        let Some(sc) = sr::parse_resolve_args(&toks[1..]) else { return Outcome::bad() };
+        let rules = sr::rules_of(sc.ver);
+        let r = sr::run_resolve(&rules, &sc.store(), &sc.state_maps(), sc.chain_sets());
+        return Outcome::new(sr::show_state(&r));
     }
     let Some(rules) = rules_of_tok(toks[1]) else { return Outcome::bad() };
     let mut it = toks[2..].iter();
@@ -207,6 +218,16 @@ fn gen_c09(rng: &mut Rng, n: usize, tier: &str) -> Vec<Req> {
             out.push(Req::new(format!("c09.typespec {}", s.payload_event_only()), format!("{cls}.typespec")));
         }
         out.push(Req::new(format!("c09.reads {}", s.payload()), format!("{cls}.reads")));
+    }
+    // resolve-level non-interference: histories with incomplete / stale / padded auth_events
+    for _ in 0..(n / 40).max(24) {
+        let sc = sr::gen_sloppy_auth(rng);
+        if !sr::f4_free(&sc) {
+            continue;
+        }
+        let args = format!("{} {} {}", sc.ver, rng.below(8), sc.payload());
+        out.push(Req::new(format!("c09.iter {args}"), "iter.model"));
+        out.push(Req::new(format!("c09.iterspec {args}"), "iter.spec"));
     }
     out
 }
